@@ -1,21 +1,62 @@
 import Mltwist.Model.RiscvTables
 import Mltwist.Lemmas.RiscvDecode
+import Mltwist.Lemmas.RiscvTextTables
 /-
-Helper lemmas for C25.  (Proofs to be supplied.)
+Helper lemmas for C25 (disassembly text is faithful).
+
+Route: `Entry.text` factors through the argument tokens (`RiscvTextArgs.text_eq`).  Mnemonics
+contain no space, so equal texts have equal mnemonics, hence (`names_nodup`) come from the same
+entry, and have equal token lists (`", ".intercalate` is injective on comma-free tokens, whose
+number depends on the entry only); equal tokens give equal shown fields (`args_shown`); the effects
+of every table entry depend on the word only through the shown fields (`RiscvTextTables`).
 -/
 namespace Mltwist.Lemmas.RiscvText
 open Mltwist Mltwist.Riscv
 open Mltwist.Lemmas.RiscvDecode (Cfg)
+open Mltwist.Lemmas.RiscvTextArgs Mltwist.Lemmas.RiscvTextTables
 
-theorem text_prefix (e : Entry) (i : Ins) : ∃ rest, e.text i = e.name ++ " " ++ rest := by
-  sorry
+theorem text_prefix (e : Entry) (i : Ins) : ∃ rest, e.text i = e.name ++ " " ++ rest :=
+  ⟨_, text_eq e i⟩
 
+/-- in a list with pairwise distinct keys, the key determines the element -/
+theorem eq_of_nodup_map {α β : Type} (f : α → β) :
+    ∀ (l : List α), (l.map f).Nodup → ∀ a ∈ l, ∀ b ∈ l, f a = f b → a = b
+  | [], _, _, ha, _, _, _ => by cases ha
+  | x :: xs, hn, a, ha, b, hb, hab => by
+    rw [List.map_cons, List.nodup_cons] at hn
+    rcases List.mem_cons.1 ha with rfl | ha' <;> rcases List.mem_cons.1 hb with rfl | hb'
+    · rfl
+    · exact absurd (hab ▸ List.mem_map_of_mem hb') hn.1
+    · exact absurd (hab ▸ List.mem_map_of_mem ha') hn.1
+    · exact eq_of_nodup_map f xs hn.2 a ha' b hb' hab
+
+/-- same entry, equal argument tokens ⇒ equal effects (no use of the mnemonic) -/
+theorem args_faithful (xlen : Nat) (hx : Cfg xlen) (m a : Bool)
+    (e : Entry) (h : e ∈ instructionSet xlen m a) (addr w1 w2 : Nat)
+    (ha : args e ⟨addr, w1⟩ = args e ⟨addr, w2⟩) :
+    e.validEffects ⟨addr, w1⟩ = e.validEffects ⟨addr, w2⟩ := by
+  obtain ⟨_, hwf, hdep⟩ := good_of_mem xlen hx m a e h
+  unfold Entry.validEffects
+  rw [hdep addr w1 w2 (args_shown e hwf addr addr w1 w2 ha)]
+
+/-- equal texts within one configuration come from the same entry -/
+theorem entry_of_text (xlen : Nat) (hx : Cfg xlen) (m a : Bool)
+    (e1 e2 : Entry) (h1 : e1 ∈ instructionSet xlen m a) (h2 : e2 ∈ instructionSet xlen m a)
+    (i1 i2 : Ins) (ht : e1.text i1 = e2.text i2) : e1 = e2 :=
+  eq_of_nodup_map (·.name) _ (RiscvDecode.names_nodup xlen hx m a) e1 h1 e2 h2
+    (name_of_text e1 e2 i1 i2 (good_of_mem xlen hx m a e1 h1).1 (good_of_mem xlen hx m a e2 h2).1 ht)
+
+/- the bounds on the words and the pattern matches are not needed: the effects of an entry depend on
+the shown fields for every word -/
+set_option linter.unusedVariables false in
 theorem text_faithful (xlen : Nat) (hx : Cfg xlen) (m a : Bool)
     (e1 e2 : Entry) (h1 : e1 ∈ instructionSet xlen m a) (h2 : e2 ∈ instructionSet xlen m a)
     (addr w1 w2 : Nat) (hw1 : w1 < 2 ^ 32) (hw2 : w2 < 2 ^ 32)
     (hm1 : e1.matchesWord w1 = true) (hm2 : e2.matchesWord w2 = true)
     (ht : e1.text ⟨addr, w1⟩ = e2.text ⟨addr, w2⟩) :
     e1.validEffects ⟨addr, w1⟩ = e2.validEffects ⟨addr, w2⟩ := by
-  sorry
+  have he := entry_of_text xlen hx m a e1 e2 h1 h2 _ _ ht
+  subst he
+  exact args_faithful xlen hx m a e1 h1 addr w1 w2 (args_of_text e1 _ _ ht)
 
 end Mltwist.Lemmas.RiscvText
